@@ -270,6 +270,7 @@ func c04Property(t *rapid.T) {
 	c := c04()
 	cfg := genSimCfg(t)
 	drawExtras(t, c, &cfg)
+	draw789(t, c, &cfg)
 	s := newSim(t, c, cfg)
 	defer s.close()
 	mon := &c04mon{feat: map[string]bool{}, kept: map[int]bool{}, dropped: map[int]bool{}}
